@@ -21,6 +21,7 @@ TLA_CP = "/opt/veriftools/tla/tla2tools.jar:/opt/veriftools/tla/CommunityModules
 FAMILY_MODULE = {
     "join": "JoinLike", "try_join": "JoinLike",
     "race": "Race", "race_ok": "Race",
+    "merge": "Merge", "zip": "Zip", "chain": "Chain", "wait_until": "WaitUntil",
 }
 
 # per module: names of the quick / thorough cfg files (without directory)
@@ -30,7 +31,7 @@ MODULE_CFGS = {
                      live_quick="MC_JoinLike_liveq.cfg", live_thorough="MC_JoinLike_live.cfg",
                      mc="MC_JoinLike.tla"),
 }
-for _m in ("Race",):
+for _m in ("Race", "Merge", "Zip", "Chain", "WaitUntil"):
     MODULE_CFGS[_m] = dict(mc_quick="MC_%s_quick.cfg" % _m, mc_thorough="MC_%s_thorough.cfg" % _m,
                            gen_quick="MC_%s_genq.cfg" % _m, gen_thorough="MC_%s_gen.cfg" % _m,
                            live_quick="MC_%s_liveq.cfg" % _m, live_thorough="MC_%s_live.cfg" % _m,
@@ -229,6 +230,8 @@ def run_for_property(prop, tier, seed, plan, env):
             raise ToolError("no behaviours exported from %s" % mod)
         # ---- 4. replay on the real code --------------------------------------------------
         fams = set(plan["fams"])
+        if "wait_until" in fams:
+            fams.add("wait_until_stream")
         by_build = {}
         pred = {}
         for i, ex in enumerate(exported):
